@@ -308,8 +308,13 @@ def _mode_name(mode):
     return mode["m"] + (":" + mode["ext"] if mode["m"] == "select" else "")
 
 
-def check_esc(case):
+def check_esc(case, known=False):
     templates, data = case["templates"], case["data"]
+    if not known:
+        if escgen.n1_class(templates):
+            raise core.Excluded()  # known finding N1 / F48
+        if escgen.has_blocks(templates) and any(m["m"] in ("region", "volatile", "segments") for m in case["modes"]):
+            raise core.Excluded()  # known finding N2 / F49
     tokens = escgen.harvest_tokens(data)
     escgen.harvest_tokens(templates, tokens)
     amp_rule = never_cuts(templates)
@@ -396,6 +401,11 @@ def check_tset(case):
     return core.Outcome(escaped, sorted(labels))
 
 
+def check_known(entry):
+    """Known findings are executed without the by-construction exclusions."""
+    return check_esc(entry["case"], known=True)
+
+
 def check_case(case):
     if case["kind"] == "esc":
         return check_esc(case)
@@ -429,16 +439,17 @@ def modes(draw, full=True):
     return [{"m": "segments"}]
 
 
-def fit_modes(templates, ms):
-    """Region modes need a program without blocks / imports (escgen.region_ok); other programs get the name-selected mode."""
-    if escgen.region_ok(templates):
+def fit_modes(templates, ms, keep=1):
+    """Region modes need a program without blocks / imports (escgen.region_ok); other programs get the name-selected mode
+    (except, with keep == 0, programs with blocks: they stay, and check_case counts them as excluded for N2)."""
+    if escgen.region_ok(templates) or (keep == 0 and escgen.has_blocks(templates)):
         return ms
     return [m if m["m"] not in ("region", "volatile", "segments") else {"m": "select", "ext": SELECT_EXTS[len(m.get("m")) % len(SELECT_EXTS)]} for m in ms]
 
 
 def esc_cases(size):
-    return st.builds(lambda p, d, m: {"kind": "esc", "templates": p["templates"], "data": d, "modes": fit_modes(p["templates"], m)},
-                     escgen.programs(neutral=False, size=size), escgen.datas(), modes())
+    return st.builds(lambda p, d, m, keep: {"kind": "esc", "templates": p["templates"], "data": d, "modes": fit_modes(p["templates"], m, keep)},
+                     escgen.programs(neutral=False, size=size), escgen.datas(), modes(), st.integers(0, 5))
 
 
 def tset_cases(thorough):
